@@ -223,8 +223,8 @@ class IdRules:
                   'storage %s' % (decl['storage'] if decl else '?'))
         # other writers of flags
         for g in self.fx.functions.values():
-            if g['tu'] != 'id_manager.cpp' or g['key'] in (f['key'], self.dtor['key']):
-                continue
+            if g['tu'] != 'id_manager.cpp' or g['key'] in (f['key'], self.dtor['key']) or self.eng.inline_helper(g):
+                continue     # helpers are analysed inside their callers
             for p in self.eng.paths(g)['paths']:
                 for e in self.flag_events(p):
                     if is_write(e):
@@ -330,9 +330,22 @@ class IdRules:
                 if e['op'] == 'wait':
                     sink.bad('C14.PROBE', 'claim loop blocks on a single reservation flag', '%s:%s' % (f['file'], e['line']),
                              'atomic wait on flag %s: the thread is woken only by the holder of that slot, although another ID may have been freed' % self.norm(e['obj'][2]))
-        # loops re-read the flag
+        # loops re-read the flag (on the analysed paths: between two visits of a loop head an atomic read of a flag occurs)
+        reread, iters = True, 0
+        for p in res['paths']:
+            evs = p.events
+            heads = [i for i, e in enumerate(evs) if e['kind'] == 'loop_head' and e.get('depth', 0) == 0]
+            for a, b in zip(heads, heads[1:]):
+                if evs[a]['header'] != evs[b]['header']:
+                    continue
+                iters += 1
+                if not any(x['kind'] == 'atomic' and self.is_flag(x['obj']) and x['op'] in ('load', 'exchange', 'cas', 'fetch_or') for x in evs[a:b]):
+                    reread = False
+        if iters:
+            sink.emit('C14.PROBE', 'ok' if reread else 'violated', 'claim loop re-reads the flag in every iteration', '%s:%s' % (f['file'], f['line']),
+                      '%d iterations examined' % iters)
         bm = self.eng.block_map(f)
-        for h in self.eng.loop_headers(f):
+        for h in []:
             # blocks of the cycle through h
             reach, todo = set(), [s for s in bm[h]['succs'] if s is not None]
             while todo:
